@@ -163,6 +163,132 @@ def analyse_class(cnode: ast.ClassDef, new_attr):
     return out, facts
 
 
+VIEW_CALLS = {'np.squeeze', 'np.atleast_1d', 'np.atleast_2d', 'np.atleast_3d', 'np.asarray', 'np.asanyarray', 'np.ravel', 'np.reshape', 'np.transpose', 'np.expand_dims'}
+VIEW_ATTRS = {'T', 'real'}
+VIEW_METHODS = {'reshape', 'ravel', 'squeeze', 'view', 'transpose'}
+
+
+def may_alias(func, resolve_call=None):
+    """{local name: set of parameter names whose array it may be a view of} by a flow-insensitive may-analysis over the
+    view-preserving numpy forms; resolve_call(call) -> [set of argument positions the k-th returned value may alias] for package
+    functions (one level)"""
+    params = [a.arg for a in func.args.posonlyargs + func.args.args + func.args.kwonlyargs]
+    al = {p_: {p_} for p_ in params}
+
+    def src(e):
+        if isinstance(e, ast.Name):
+            return set(al.get(e.id, ()))
+        if isinstance(e, ast.Attribute) and e.attr in VIEW_ATTRS:
+            return src(e.value)
+        if isinstance(e, ast.Subscript):
+            return src(e.value) if isinstance(e.slice, (ast.Slice, ast.Tuple, ast.Constant)) or True else set()
+        if isinstance(e, ast.Call):
+            nm = U.call_name(e) or ''
+            if nm in VIEW_CALLS and e.args:
+                return src(e.args[0])
+            if isinstance(e.func, ast.Attribute) and e.func.attr in VIEW_METHODS:
+                return src(e.func.value)
+        if isinstance(e, ast.IfExp):
+            return src(e.body) | src(e.orelse)
+        return set()
+    for _ in range(4):
+        for st in ast.walk(func):
+            if not isinstance(st, ast.Assign) or len(st.targets) != 1:
+                continue
+            t, v = st.targets[0], st.value
+            if isinstance(t, ast.Name):
+                got = src(v)
+                if got:
+                    al.setdefault(t.id, set()).update(got)
+            elif isinstance(t, ast.Tuple) and all(isinstance(x, ast.Name) for x in t.elts):
+                if isinstance(v, ast.Tuple) and len(v.elts) == len(t.elts):
+                    for x, y in zip(t.elts, v.elts):
+                        got = src(y)
+                        if got:
+                            al.setdefault(x.id, set()).update(got)
+                elif isinstance(v, ast.Call) and resolve_call is not None:
+                    pos = resolve_call(v)
+                    if pos and len(pos) == len(t.elts):
+                        for x, idxs in zip(t.elts, pos):
+                            for i in idxs:
+                                if i < len(v.args):
+                                    got = src(v.args[i])
+                                    if got:
+                                        al.setdefault(x.id, set()).update(got)
+    return al
+
+
+def returned_views(func):
+    """[set of parameter positions the k-th element of the returned tuple may be a view of] (None when not a tuple return)"""
+    params = [a.arg for a in func.args.posonlyargs + func.args.args]
+    al = may_alias(func)
+    out = None
+    for r in ast.walk(func):
+        if isinstance(r, ast.Return) and isinstance(r.value, ast.Tuple):
+            row = []
+            for e in r.value.elts:
+                names = al.get(e.id, set()) if isinstance(e, ast.Name) else set()
+                row.append({params.index(n) for n in names if n in params})
+            out = row if out is None else [a | b for a, b in zip(out, row)]
+    return out
+
+
+def alias_keys(cnode, new_attr, resolve_call):
+    """[(cache field, method, element source, node)]: a stored key element that is compared with np.array_equal & co (so it is an
+    array) and may be a view of a caller's array (a parameter reaching the store through view-preserving operations only)"""
+    out = []
+    methods = [st for st in cnode.body if isinstance(st, ast.FunctionDef) and st.args.args]
+    # positions of the stored tuple that are compared as arrays somewhere in the class
+    array_pos = {}
+    for m in methods:
+        me = m.args.args[0].arg
+        unpack = {}
+        for st in ast.walk(m):
+            if isinstance(st, ast.Assign) and len(st.targets) == 1:
+                t, v = st.targets[0], st.value
+                srcs = [n for n in ast.walk(v) if _self_attr(n, me) and new_attr(n.attr)]
+                if isinstance(t, ast.Name) and srcs:
+                    unpack[t.id] = (srcs[0].attr, None)
+                if isinstance(t, ast.Tuple) and isinstance(v, ast.Name) and v.id in unpack:
+                    for i, x in enumerate(t.elts):
+                        if isinstance(x, ast.Name):
+                            unpack[x.id] = (unpack[v.id][0], i)
+                if isinstance(t, ast.Tuple) and srcs and not isinstance(v, ast.Name):
+                    for i, x in enumerate(t.elts):
+                        if isinstance(x, ast.Name):
+                            unpack[x.id] = (srcs[0].attr, i)
+        for c in ast.walk(m):
+            if isinstance(c, ast.Call) and (U.call_name(c) or '') in ('np.array_equal', 'np.allclose', 'np.array_equiv') and len(c.args) >= 2:
+                for a in c.args[:2]:
+                    if isinstance(a, ast.Name) and a.id in unpack and unpack[a.id][1] is not None:
+                        array_pos.setdefault(unpack[a.id][0], set()).add(unpack[a.id][1])
+    if not array_pos:
+        return out
+    for m in methods:
+        me = m.args.args[0].arg
+        al = may_alias(m, resolve_call)
+        for st in ast.walk(m):
+            if not isinstance(st, ast.Assign):
+                continue
+            for t in st.targets:
+                base = t
+                while isinstance(base, ast.Subscript):
+                    base = base.value
+                if not (_self_attr(base, me) and base.attr in array_pos):
+                    continue
+                vals = [st.value]
+                if isinstance(st.value, ast.IfExp):
+                    vals = [st.value.body, st.value.orelse]
+                for v in vals:
+                    if isinstance(v, ast.Tuple):
+                        for i in array_pos[base.attr]:
+                            if i < len(v.elts) and isinstance(v.elts[i], ast.Name):
+                                srcp = al.get(v.elts[i].id, set()) - {me}
+                                if srcp:
+                                    out.append((base.attr, m.name, f'{v.elts[i].id} (may be a view of the argument {sorted(srcp)[0]})', st))
+    return out
+
+
 def check(repo, ctx, rule, files, base_attrs):
     """applies the template to every class of `files`"""
     def new_attr(a):
@@ -181,6 +307,22 @@ def check(repo, ctx, rule, files, base_attrs):
                 ctx.advisories.append(f'T-MEMO failed on {path}::{cnode.name}: {type(e).__name__}: {e}')
                 continue
             n_cache += len(facts)
+            # stored key elements that alias an argument
+
+            def resolve_call(call):
+                nm = call.func.id if isinstance(call.func, ast.Name) else call.func.attr if isinstance(call.func, ast.Attribute) else None
+                for p2 in repo.modules:
+                    for node in repo.module(p2).tree.body:
+                        if isinstance(node, ast.FunctionDef) and node.name == nm:
+                            return returned_views(node)
+                return None
+            try:
+                for F, mn, what, node in alias_keys(cnode, new_attr, resolve_call):
+                    ctx.violation(rule, path, f'{cnode.name}.{mn}', node, f'the memo self.{F} stores {what} without copying it, and the hit test compares it as an array: when the caller updates its '
+                                  'array in place the stored key changes with it, the comparison succeeds and the value computed for the old contents is returned',
+                                  construct=f'{cnode.name}.{mn}: key of {F} aliases an argument')
+            except Exception as e:
+                ctx.advisories.append(f'T-MEMO (alias) failed on {path}::{cnode.name}: {type(e).__name__}: {e}')
             for F, mn, X, node in viol:
                 ctx.violation(rule, path, f'{cnode.name}.{mn}', node, f'{mn} changes self.{X}, which is read when the memoised self.{F} is computed, but neither clears self.{F} nor calls a method that does: '
                               f'later reads return the value computed from the old {X}', construct=f'{cnode.name}.{mn}: {X} -> {F}')
